@@ -603,7 +603,7 @@ func runItemBackoff(t *testing.T, prop string, c *C09Case, trace bool) *Outcome 
 				touchAt[op.ID] = append(touchAt[op.ID], s.Now())
 			}
 		})
-		if r := s.Settle(3000000); r != simrt.Quiescent {
+		if r := s.Settle(1000000); r != simrt.Quiescent {
 			out.HarnessErr = fmt.Sprintf("C09 backoff run did not become quiescent: %v live=%v", r, s.Live())
 			return
 		}
